@@ -815,7 +815,7 @@ func c11RunOrm(m *vk.M, idx int, c *c11OrmCase) (st c11OrmStats) {
 func TestVerifC11Orm(t *testing.T) {
 	m := vk.New(t, "C11", "seeded cases: destination {fully db-tagged struct, untagged struct incl. embedded structs/pointers up to depth 2, primitive} built with reflect.StructOf over 27 field kinds (ints, uints, floats, string, bool, []byte, time.Time, sql.Null*, pointers) x {QueryRow, QueryRows into []T / []*T} x {strict, Partial} x {plain, Ctx} x {connection, transaction session, prepared statement} x result set {0, 1, 2-5 rows; columns permuted, dropped, unknown extras; NULLs; native and text encodings}; oracle: every field equals the value of its column (by tag name / by position), fields without a column stay zero, empty single-row result => ErrNotFound, strict with fewer columns than fields => error; non-trivial = a verdict was drawn from a non-empty result or an error path")
 	defer m.Done()
-	n := vk.N(4000, 120000)
+	n := vk.N(4000, 300000)
 	r := m.Rand("orm")
 	classes := map[string]int64{}
 	shapes := map[string]int64{}
